@@ -4,7 +4,7 @@ import IofloModel.Lemmas.LogRules
 
 Model: `Model/LogRules.lean` (transcription of `ioflo/base/logging.py`: the `Log` rule actions,
 `prepare`, `reopen`, and the START / RUN / STOP / READY / ABORT branches of `Logger.makeRunner`,
-with the fix patches D51 and D52 applied).  `S1` is a logger with one log; `Sys` (what the driver
+with the fix patches D51, D52 and D53 applied).  `S1` is a logger with one log; `Sys` (what the driver
 runs) is a logger with any number of logs.
 
 Standing hypotheses of the history theorems (all decidable on a concrete history):
@@ -235,29 +235,32 @@ example : ((qS .deck).exec qH).recs.map (·.cells) = [[some (.atom (.int 5))], [
 
 /-! ## one header per new file -/
 
-/-- **a new file starts with exactly one header**: if the file did not exist, then after any
-history it still does not exist (never started), or it is one header line followed by record
-lines only — whatever the rule, restarts included. -/
-theorem C22_one_header_per_new_file (s : S1) (h : List Op) (hf : Fresh s) (hd : s.log.disk = none)
+/-- **a new file starts with exactly one header**: if the file did not exist — or existed but was
+still empty (fix D53) — then after any history it is still empty / absent (never started), or it is
+one header line followed by record lines only — whatever the rule, restarts included. -/
+theorem C22_one_header_per_new_file (s : S1) (h : List Op) (hf : Fresh s) (hd : fileLines s.log.disk = [])
     (hp : proto .stopped h = true) :
-    (s.exec h).log.disk = none ∨
+    fileLines (s.exec h).log.disk = [] ∨
     ∃ cols, fileLines (s.exec h).log.disk =
       .header s.log.rule s.log.base cols :: (s.exec h).recs.map Line.record := by
   have hh : HeaderInv s s.log.rule s.log.base :=
-    ⟨rfl, rfl, fun _ => ⟨hf.stamp, hf.first, hf.closed⟩, fun c hc => by rw [hd] at hc; cases hc⟩
+    ⟨rfl, rfl, fun _ => ⟨hf.stamp, hf.first, hf.closed⟩, fun c hc hne => by
+      rw [hc] at hd; exact absurd hd hne⟩
   have := header_exec s h hf.inv (by rw [hf.status]; exact hp) _ _ hh
   cases hdk : (s.exec h).log.disk with
   | none => exact Or.inl rfl
   | some c =>
-    obtain ⟨cols, rs, hc⟩ := this.present c hdk
-    refine Or.inr ⟨cols, ?_⟩
-    simp only [S1.recs, hdk, fileLines_some, hc, recsOf, recsOf_records]
+    by_cases hne : c = []
+    · exact Or.inl (by rw [hne]; rfl)
+    · obtain ⟨cols, rs, hc⟩ := this.present c hdk hne
+      refine Or.inr ⟨cols, ?_⟩
+      simp only [S1.recs, hdk, fileLines_some, hc, recsOf, recsOf_records]
 
-/-- a file that was there before is only appended to, with records (no second header) -/
-theorem C22_existing_file_no_header (s : S1) (h : List Op) (hf : Fresh s) (old : List Line)
+/-- a file that was there before with something in it is only appended to, with records (no second header) -/
+theorem C22_existing_file_no_header (s : S1) (h : List Op) (hf : Fresh s) (old : List Line) (hne : old ≠ [])
     (hd : s.log.disk = some old) (hp : proto .stopped h = true) :
     ∃ rs : List Rec, (s.exec h).log.disk = some (old ++ rs.map Line.record) :=
-  old_exec s h hf.inv (by rw [hf.status]; exact hp) old ⟨[], by simp [hd]⟩
+  old_exec s h hf.inv (by rw [hf.status]; exact hp) old hne ⟨[], by simp [hd]⟩
 
 example : fileLines ((exS .always).exec exH).log.disk =
     .header .always "t" ["x"] :: ((exS .always).exec exH).recs.map Line.record := by decide
